@@ -49,6 +49,8 @@ def conversions():
     C.append(("rt duration(string(d))", call("duration", "dur", call("string", "string", V("dur"))), "dur-whole"))
     # the same law for timestamps that carry the zone they were written in (a bound timestamp is always UTC)
     C.append(("rt timestamp(string(timestamp(text)))", call("timestamp", "ts", call("string", "string", call("timestamp", "ts", V("string")))), "ts-text-whole"))
+    # bound timestamps carrying an IANA zone (only the host can make such a value); zones sharing an abbreviation (CST, IST, BST ...) included
+    C.append(("rt timestamp(string(t)) zoned", call("timestamp", "ts", call("string", "string", V("ts"))), "ts-whole-modern"))
     C.append(("rt duration(string(duration(text)))", call("duration", "dur", call("string", "string", call("duration", "dur", V("string")))), "dur-text-whole"))
     C.append(("rt int(double(i))", call("int", "int", call("double", "double", V("int"))), "int"))
     C.append(("rt uint(int(u))", call("uint", "uint", call("int", "int", V("uint"))), "uint"))
@@ -75,7 +77,7 @@ def conversions():
 SRC_TYPE = {
     "int": "int", "uint": "uint", "double": "double", "double-finite": "double", "string": "string", "bytes": "bytes", "ts": "ts", "ts-whole": "ts", "dur": "dur",
     "dur-whole": "dur", "int-text": "string", "uint-text": "string", "double-text": "string", "junk-text": "string", "ts-text": "string", "dur-text": "string",
-    "ts-text-whole": "string", "dur-text-whole": "string",
+    "ts-text-whole": "string", "dur-text-whole": "string", "ts-whole-modern": "ts",
 }
 
 JUNK = ["", "abc", "x1", "--", "one", "NaN!", " ", "1.2.3", "12abc", "1e", "e5", "0x", "٣", "１２", "\x00", "T", "P1D", "ss", "h", "-", "+", ".", "1..s", "true"]
@@ -100,7 +102,12 @@ def draw(rnd, kind):
         return ("bytes", MV.rand_bytes(rnd, 8))
     if kind == "ts":
         return ("ts", MV.rand_ts(rnd))
-    if kind == "ts-whole":
+    if kind == "ts-whole-modern" and rnd.random() < 0.75:
+        from .. import civil
+
+        y = rnd.choice([1900, 1945, 1969, 1970, 1999, 2000, 2021, 2024, 2037, 2038, 2100, rnd.randint(1900, 2100)])
+        return ("ts", (civil.days_from_civil(y, rnd.randint(1, 12), rnd.randint(1, 28)) * 86400 + rnd.randint(0, 86399)) * 10**6)
+    if kind in ("ts-whole", "ts-whole-modern"):
         r = rnd.random()
         if r < 0.35:
             from .. import civil
@@ -141,7 +148,7 @@ def draw(rnd, kind):
             y = rnd.choice([1, 9, 99, 100, 999, 1000, 1600, 1900, 2000, 2100, 9999])
             us = (civil.days_from_civil(y, rnd.choice([1, 2, 3, 12]), rnd.choice([1, 28, 29 if y % 4 == 0 and (y % 100 or y % 400 == 0) else 28])) * 86400 + rnd.choice([0, 1, 1799, 1800, 3599, 43200, 86399])) * 10**6
             us = max(MV.TS_MIN_US, min(MV.TS_MAX_US - 999999, us))
-        off = rnd.choice([0, 0, 330, -480, 840, -840, 1, -1, 59, -59, -30, 30, -210, -570, 345, 765, -90, rnd.randint(-840, 840)])
+        off = MV.rand_offset(rnd)
         if not (MV.TS_MIN_US <= us + off * 60 * 10**6 <= MV.TS_MAX_US):
             off = 0
         return ("string", MV.ts_text(us, off))
@@ -204,6 +211,30 @@ def edge_class(v):
     return "-"
 
 
+IANA = [
+    "America/Chicago", "Asia/Shanghai", "America/Havana", "Asia/Taipei", "Asia/Kolkata", "Europe/Dublin", "Asia/Jerusalem", "Europe/London", "Australia/Sydney",
+    "America/New_York", "America/Los_Angeles", "Asia/Manila", "Australia/Lord_Howe", "Asia/Kathmandu", "America/St_Johns", "Pacific/Apia", "Pacific/Kiritimati", "UTC",
+]
+
+
+def zoned(benv, x):
+    """Re-dress the bound timestamp in an IANA zone chosen from its value (same instant)."""
+    import datetime
+    import zoneinfo
+
+    us = x[1]
+    if not (MV.TS_MIN_US + 2 * 86400 * 10**6 <= us <= MV.TS_MAX_US - 2 * 86400 * 10**6):
+        return benv
+    tz = zoneinfo.ZoneInfo(IANA[(us // 1000003) % len(IANA)])
+    ct = core.celpy().celtypes
+    utc = datetime.datetime(1970, 1, 1, tzinfo=datetime.timezone.utc) + datetime.timedelta(microseconds=us)
+    try:
+        benv["x"] = ct.TimestampType(utc.astimezone(tz))
+    except (OverflowError, ValueError):
+        pass
+    return benv
+
+
 def check(acc, label, node, x, cached=True):
     env = {"x": x}
     exp = expected_of(node, env)
@@ -214,6 +245,8 @@ def check(acc, label, node, x, cached=True):
         return
     src = lang.to_text(node)
     benv = MV.cel_env(env)
+    if label.endswith(" zoned"):
+        benv = zoned(benv, x)
     ec = edge_class(x)
     acc.hook("roundtrip" if label.startswith("rt ") else "range")
     if exp[0] == "E" or ec not in ("mid", "ascii", "utf8", "-"):
@@ -224,6 +257,15 @@ def check(acc, label, node, x, cached=True):
         acc.evaluations += 1
         acc.cell(label, ec, exp[0], r, "ok" if agrees(out, exp) else "differ")
         if agrees(out, exp):
+            continue
+        if label.endswith(" zoned"):
+            off = benv["x"].utcoffset()
+            odd = off is not None and (off.seconds % 60 != 0 or off.microseconds != 0)
+            acc.violation(
+                f"{r} zoned timestamp(string(t)) {'zone-offset-with-seconds' if odd else 'whole-minute-offset'} x={ec} obs={diag.oclass(out).split('@')[0]} exp=V:ts",
+                f"{'interpreted' if r == 'I' else 'compiled'}: timestamp(string(t)) with t={x!r} carried in zone {benv['x'].tzinfo} (offset {off}) gave {core.jkey(out)[:100]}; string(t) = {str(benv['x'])!r}",
+                {"label": label, "x": MV.enc(x), "runner": r},
+            )
             continue
         # which step of a composition is off?
         step = label
@@ -280,7 +322,7 @@ def boundary_values(kind):
         return [("uint", v) for v in MV.uint_boundaries()]
     if kind in ("double", "double-finite"):
         return [("double", v) for v in MV.double_boundaries(False) if kind == "double" or v not in (math.inf, -math.inf)]
-    if kind == "ts-whole":
+    if kind in ("ts-whole", "ts-whole-modern"):
         return [("ts", v - v % 10**6) for v in MV.ts_boundaries()]
     if kind == "dur-whole":
         return [("dur", int(v / 10**6) * 10**6) for v in MV.dur_boundaries()]
@@ -303,7 +345,7 @@ def run(ctx):
     for j in range(n):
         if ctx.expired():
             break
-        label, node, kind = CONV[j % len(CONV)] if rnd.random() < 0.7 else rnd.choice(CONV[:9])
+        label, node, kind = CONV[j % len(CONV)] if rnd.random() < 0.7 else rnd.choice(CONV[:10])
         x = draw(rnd, kind)
         check(acc, label, node, x, cached=rnd.random() < 0.9)
         if j % 40 == 0:
